@@ -121,6 +121,8 @@ pub use sessions::p2p_spectator_session::SpectatorSession;
 pub use sessions::sync_test_session::SyncTestSession;
 pub use sync_layer::{GameStateAccessor, GameStateCell};
 
+#[cfg(feature = "verif-hooks")]
+pub mod verif_hooks;
 pub(crate) mod error;
 pub(crate) mod frame_info;
 pub(crate) mod input_queue;
@@ -615,5 +617,56 @@ pub struct PredictDefault;
 impl<I: Default> InputPredictor<I> for PredictDefault {
     fn predict(_previous: I) -> I {
         I::default()
+    }
+}
+
+#[cfg(feature = "verif-hooks")]
+impl<T: Config> GgrsEvent<T> {
+    pub(crate) fn verif_digest(&self, out: &mut Vec<u8>) {
+        use crate::verif_hooks::{digest_debug, Digest};
+        match self {
+            Self::Synchronizing { addr, total, count } => {
+                out.push(0);
+                digest_debug(addr, out);
+                total.digest(out);
+                count.digest(out);
+            }
+            Self::Synchronized { addr } => {
+                out.push(1);
+                digest_debug(addr, out);
+            }
+            Self::Disconnected { addr } => {
+                out.push(2);
+                digest_debug(addr, out);
+            }
+            Self::NetworkInterrupted {
+                addr,
+                disconnect_timeout,
+            } => {
+                out.push(3);
+                digest_debug(addr, out);
+                disconnect_timeout.digest(out);
+            }
+            Self::NetworkResumed { addr } => {
+                out.push(4);
+                digest_debug(addr, out);
+            }
+            Self::WaitRecommendation { skip_frames } => {
+                out.push(5);
+                skip_frames.digest(out);
+            }
+            Self::DesyncDetected {
+                frame,
+                local_checksum,
+                remote_checksum,
+                addr,
+            } => {
+                out.push(6);
+                frame.digest(out);
+                local_checksum.digest(out);
+                remote_checksum.digest(out);
+                digest_debug(addr, out);
+            }
+        }
     }
 }
